@@ -169,7 +169,7 @@ class TMBuilder(AutomatonBuilder):
         blank = self.parse_symbol('blank', '□', '_')
         tape_symbols = self.get_symbol_set('tape_symbols', self.used_tape_symbols())
         input_symbols = self.get_symbol_set('input_symbols')
-        if not input_symbols:
+        if input_symbols is None:
             input_symbols = tape_symbols - {blank}
 
         Q = set(State(s) for s in A.states)
